@@ -87,7 +87,7 @@ class EngineLineCropper(object):
         d_y = output_y_positions - line_interpf(output_x_positions + 0.1)
         norm_scales = (d_x**2 + d_y**2) ** 0.5 # get normals
 
-        norm_x = -d_y / norm_scales
+        norm_x = d_y / norm_scales  # d_y = y(x) - y(x + 0.1): the tangent is (d_x, -d_y), its normal towards +y is (d_y, d_x)
         norm_y = d_x / norm_scales
 
         vertical_map = np.linspace(-line_heights[0], line_heights[1], target_height).reshape(-1, 1)
